@@ -214,6 +214,13 @@ impl Obs {
                     format!("sampling of prunable height {height} started (highest prunable {:?}) while the pruner reports a backlog of {}", st.highest_prunable, st.backlog));
             }
         }
+        // ---- C34: never a block promised to the pruner (the daser keeps its promises across
+        // disconnections, so this clause is judged throughout)
+        ctx.oracle("C34.not_promised_to_pruner");
+        if st.granted.contains(&height) {
+            ctx.violation("C34", "not_promised_to_pruner", "daser",
+                format!("sampling of height {height} started although the daser had answered want_to_prune({height}) with true"));
+        }
         // ---- C34: recency order
         if let (Some(stored), Some(sampled), false) = (st.last_stored.clone(), st.last_sampled.clone(), st.disconnected_once) {
             ctx.oracle("C34.recency_order");
@@ -762,17 +769,27 @@ async fn run_das(ctx: &Arc<RunCtx>) {
                                 let tx = fence_tx.clone();
                                 let inner2 = inner.clone();
                                 let ctx2 = ctx.clone();
+                                let slow_removal_ms = if ctx.coin("pruner.slow_removal", 400) { ctx.range("pruner.removal_delay_ms", 1, 40_000) } else { 0 };
                                 side_tasks.spawn(async move {
                                     let granted = d.want_to_prune(h).await.unwrap_or(false);
                                     if granted {
-                                        // the pruner removes the header right away
+                                        // the fence first: from here on the height is promised
+                                        let _ = tx.send(FenceMsg::Prune { height: h, granted });
+                                        // the pruner removes the header right away, or after it
+                                        // has collected and cleaned up the rest of its batch
+                                        if slow_removal_ms > 0 {
+                                            tokio::time::sleep(Duration::from_millis(slow_removal_ms)).await;
+                                            ctx2.probe("header_removed_some_time_after_the_grant");
+                                        }
                                         if inner2.remove_height(h).await.is_ok() {
                                             ctx2.fault("header_pruned_during_sampling_run");
                                         }
                                     } else {
                                         ctx2.probe("daser_refused_prune_of_ongoing");
                                     }
-                                    let _ = tx.send(FenceMsg::Prune { height: h, granted });
+                                    if !granted {
+                                        let _ = tx.send(FenceMsg::Prune { height: h, granted });
+                                    }
                                 });
                             }
                         }
